@@ -8,6 +8,7 @@ CONSTANTS
   Extra = 6
   Cube = FALSE
   MaxEvolve = 3
+  Repeat = 2
   EvolveEvery = 6
 SPECIFICATION Spec
 INVARIANTS TypeOK Total Outcome
